@@ -21,7 +21,7 @@ for id in $IDS; do
   [ -n "$demo" ] || { echo "$id: no demo"; continue; }
   pkgname=$(grep -m1 '^package ' $demo | awk '{print $2}')
   case $pkgname in
-    libaudit) dir=. ;;
+    libaudit|libaudit_test) dir=. ;;
     auparse|auparse_test) dir=auparse ;;
     rule|rule_test) dir=rule ;;
     flags|flags_test) dir=rule/flags ;;
